@@ -547,8 +547,11 @@ class WFSA:
         state_counter = 0
 
         def get_new_state():
+            # Fresh states are named after the arc they expand, so that they
+            # stay distinct from the existing states and from the fresh states
+            # of other converted automata that are later merged with this one.
             nonlocal state_counter
-            state = f"_bytes{state_counter}"
+            state = (f"_bytes{state_counter}", i, a, j)
             state_counter += 1
             return state
 
